@@ -299,6 +299,7 @@ def run_pipes(ctx, r, drv, hp):
     iobs = index(out + '\n' + tout, 'OBS')
     mo = index(mout, 'OUT')
     mden = index(mout, 'DEN')
+    mled = index(mout, 'LED')
     skipped = 'SKIPPED PIPE' in out
     if skipped:
         r.notes.append('pipeline harness stopped early after 12 abnormal terminations (all reported)')
@@ -353,6 +354,13 @@ def run_pipes(ctx, r, drv, hp):
                 if obs['bad'] != '0':
                     r.hits.append(Hit('monitor', 'C03:pipe:ledger:lifetime',
                                       'pipeline %s: %s uses of a destroyed / double destroyed payload' % (sx, obs['bad']), rep))
+                if obs.get('ol', '0') != '0':
+                    r.hits.append(Hit('monitor', 'C03:pipe:ledger:opstate_leak',
+                                      'pipeline %s: %s leaf / scheduler operation states never destroyed' % (sx, obs['ol']), rep))
+                if mode == 'rd' and not is_async and (obs.get('ld', '0') not in ('0', '-1') or obs.get('sd', '0') not in ('0', '-1')):
+                    r.hits.append(Hit('monitor', 'C03:pipe:ledger:survives_destroy',
+                                      'pipeline %s: %s leaf / %s scheduler operation states still alive after the receiver '
+                                      'destroyed the operation state' % (sx, obs.get('ld'), obs.get('sd')), rep))
                 if obs['same'] == '0':
                     r.hits.append(Hit('monitor', 'C03:pipe:exception_identity',
                                       'pipeline %s: error %s arrived as a different exception object' % (sx, res), rep))
@@ -384,9 +392,33 @@ def run_pipes(ctx, r, drv, hp):
             ok = res in dens
         else:
             ok = (res == mres) or (is_async and mode != 'run' and res in {model_mode_str(mode, c) for c in dens})
-        if ok:
+        # ---- the object ledger predicted by Model/SenderLedger.v (all leaves inline: the model is the sequential evaluator)
+        led_ok = True
+        if mode in ('run', 'rd') and cid in mled:
+            ml = mled[cid]
+            rep['model_ledger'] = ml
+            if ml == 'none':
+                r.hits.append(Hit('model', 'C03:model:ledger_undefined', 'ledger evaluator gives up on %s' % sx, rep))
+                led_ok = False
+            else:
+                mf = dict(kv.split('=') for kv in ml.split(' '))
+                if mf.get('nouse') != '1':
+                    r.hits.append(Hit('model', 'C03:model:use_after_signal',
+                                      'model trace of %s touches an operation state after it signalled its receiver' % sx, rep))
+                    led_ok = False
+                if not is_async and res not in ('abort', 'segv', 'hang', 'exit') and obs.get('n') == '1' and 'lc' in obs:
+                    keys = ['lc', 'sc', 'ls', 'ss'] + (['ld', 'sd'] if mode == 'rd' else [])
+                    bad = [k for k in keys if obs.get(k) != mf.get(k)]
+                    r.count('ledger_compared')
+                    if bad:
+                        led_ok = False
+                        r.hits.append(Hit('corr', 'C03:pipe:ledger_correspondence',
+                                          'pipeline %s (%s): operation-state ledger differs in %s: implementation [%s] model [%s] '
+                                          '(lc/sc constructed, ls/ss alive at the completion signal, ld/sd alive after destroy-in-receiver)'
+                                          % (sx, mode, ','.join(bad), iobs[cid], ml), rep))
+        if ok and led_ok:
             r.traces += 1
-        else:
+        elif not ok:
             r.hits.append(Hit('corr', 'C03:pipe:correspondence',
                               'pipeline %s (%s): implementation %s, model %s (den %s)' % (sx, mode, res, mres, sorted(dens)), rep))
         if nshown < 3 and len(feats) >= 3:
